@@ -36,6 +36,42 @@ Theorem C08_completeness : forall (H : list N -> list N),
 Proof. exact completeness. Qed.
 Print Assumptions C08_completeness.
 
+(* the Go loop `for i := 0; ; i++` has no bound; the model's has (fuel).  For the
+   genuine proof ANY bound >= 2n+1 (n = key length in bytes) gives the value: the
+   model's fuel never decides, and no bound below 2n+1 is enough (C08_comb_tight) *)
+Theorem C08_completeness_fuel : forall (H : list N -> list N),
+  (forall x, length (H x) = 32%nat) ->
+  forall NS : list N -> Prop, H_inj_on H NS ->
+  forall resolve t r key,
+    pwf t -> forallb byteb key = true -> (forall e, genuine H t e -> NS e) ->
+    hash_root H t = Some r ->
+    exists db, prove H resolve t key = TOk db /\
+      forall f i, (2 * length key + 1 <= f)%nat ->
+        verify_f f db r (keybytes_to_hex key) i = VOk (lk t (keybytes_to_hex key)).
+Proof. exact completeness_fuel. Qed.
+Print Assumptions C08_completeness_fuel.
+
+(* same for every hash-keyed database of encodings in NS: with any bound >= 2n+1
+   the loop ends with the true value or a missing node, never by the bound *)
+Theorem C08_sound_fuel : forall (H : list N -> list N),
+  (forall x, length (H x) = 32%nat) ->
+  forall NS : list N -> Prop, H_inj_on H NS ->
+  forall t r key db f i,
+    pwf t -> forallb byteb key = true -> (forall e, genuine H t e -> NS e) ->
+    db_keyed H db -> db_in NS db -> hash_root H t = Some r ->
+    (2 * length key + 1 <= f)%nat ->
+    verify_f f db r (keybytes_to_hex key) i = VOk (lk t (keybytes_to_hex key)) \/
+    exists j, verify_f f db r (keybytes_to_hex key) i = VErr (VMissing j).
+Proof. exact sound_fuel. Qed.
+Print Assumptions C08_sound_fuel.
+
+(* 2n+1 is reached: on the comb trie (a branch at every nibble depth, hashed
+   terminator-only leaf) the proof has 2n+1 distinct nodes, bound 2n+1 verifies
+   and bound 2n runs out; n = 2 and n = 32 (65 nodes), evaluated *)
+Theorem C08_comb_tight : comb_check 2 = true /\ comb_check 32 = true.
+Proof. exact comb_tight. Qed.
+Print Assumptions C08_comb_tight.
+
 (* ... but NOT for the empty trie: Prove emits no node and VerifyProof rejects the
    empty proof ("proof node 0 missing") instead of returning (nil, nil).
    Full statement refuted: forall t (including NEmpty), completeness. *)
